@@ -819,6 +819,20 @@ func (env *SpecEnv) evalCall(e *SExpr) TV {
 			// bstrAt(arr, off, len)
 			arr := env.scalar(env.eval(e.Args[0]))
 			return TV{&VS{mkApp("bstr", SStr, arr, env.scalar(env.eval(e.Args[1])), env.scalar(env.eval(e.Args[2])))}, types.Typ[types.String]}
+		case "visited":
+			// visited(k): key k has already been produced by the map range iterator of this function
+			var key string
+			n := 0
+			for k := range env.st.heap {
+				if strings.HasPrefix(k, "$visited!") {
+					key = k
+					n++
+				}
+			}
+			if n != 1 {
+				env.fail("visited() needs exactly one active map range (found %d)", n)
+			}
+			return TV{&VS{mkSelect(env.st.heap[key], env.scalar(env.eval(e.Args[0])))}, boolT}
 		case "strlen":
 			return TV{&VS{vc.strlen(env.scalar(env.eval(e.Args[0])))}, mathInt}
 		case "now":
